@@ -157,6 +157,21 @@ CHECKS['C14'] = dict(
          'under C06.',
     technique='sidecar contracts + own VC generator over the real AST + z3 against an independent rule spec; native replay of counter-models')
 
+CHECKS['C06'] = dict(
+    category='proof',
+    text='Conservation is stated pointwise in an arbitrary known card c (a skolem constant the solver may instantiate with any rank and '
+         'suit): if c is in at most one place before an operation, the number of places it is in is the same afterwards. This is proved for '
+         'every card-moving function -- _consume_cards (consumed cards leave the place they were in and only they; the burns / muck / '
+         'discards are touched only when the deck cannot cover the request), burn_card, deal_hole, deal_board, stand_pat_or_discard, '
+         '_muck_hole_cards (fold / muck / kill), show_or_muck_hole_cards (produce-then-consume) -- together with where the cards land (burn '
+         'pile, that player\'s hand, the boards, the street\'s discards, the muck), and for the cards the engine chooses itself '
+         '(_verify_cards_consumption: the remaining deck first, in order, reserve cards only when the deck is short). Because c is arbitrary, '
+         '"no card is ever duplicated or lost" follows by induction over the operations; deck size does not enter.',
+    design_ref='DESIGN.md section 4 (C06), section 8',
+    note='D/shape: piles are capacity-bounded symbolic sequences (capacities in the evidence); explicitly supplied known cards are assumed '
+         'dealable (the condition under which the engine does not warn); shuffles are arbitrary permutations.',
+    technique='sidecar contracts + own VC generator over the real AST + z3, pointwise (skolem card) conservation; native replay of counter-models')
+
 NOT_APPLICABLE = {
     'C20': 'regex-driven text importers against external site formats; no contract within reach expresses or decides it (DESIGN.md section 5)',
 }
